@@ -1265,6 +1265,40 @@ fn proto_roundtrip(req: &J) -> J {
     json!({"equal": true, "policies": ids.len(), "templates": ts.len(), "bytes": bytes.len()})
 }
 
+/// resource / principal permission query against a brute-force enumeration of the candidates with the concrete authorizer
+fn permission_query(req: &J) -> J {
+    use cedar_policy::{Context, EntityTypeName, EntityUid, PrincipalQueryRequest, ResourceQueryRequest, Schema};
+    use std::str::FromStr;
+    let uid = |j: &J| EntityUid::from_type_name_and_id(j["type"].as_str().unwrap_or("").parse().unwrap(), j["id"].as_str().unwrap_or("").parse().unwrap());
+    let schema = match Schema::from_cedarschema_str(req["schema"].as_str().unwrap_or("")) { Ok(s) => s.0, Err(e) => return json!({"input_error": e.to_string()}) };
+    let ps = match PolicySet::from_str(req["policies"].as_str().unwrap_or("")) { Ok(p) => p, Err(e) => return json!({"input_error": e.to_string()}) };
+    let ents = match Entities::from_json_value(req["entities"].clone(), Some(&schema)) { Ok(e) => e, Err(e) => return json!({"input_error": e.to_string()}) };
+    let action = uid(&req["action"]);
+    let cx = |s: &Schema| Context::from_json_value(req["context"].clone(), Some((s, &action))).map_err(|e| e.to_string());
+    let resource_query = req["kind"] == "resource";
+    let ty: EntityTypeName = match req[if resource_query { "resource_type" } else { "principal_type" }].as_str().unwrap_or("").parse() { Ok(t) => t, Err(_) => return json!({"input_error": "type name"}) };
+    let fixed = uid(&req[if resource_query { "principal" } else { "resource" }]);
+    let context = match cx(&schema) { Ok(c) => c, Err(e) => return json!({"input_error": e}) };
+    let mut got: Vec<String> = if resource_query {
+        let q = match ResourceQueryRequest::new(fixed.clone(), action.clone(), ty.clone(), context.clone(), &schema) { Ok(q) => q, Err(e) => return json!({"input_error": e.to_string()}) };
+        match ps.query_resource(&q, &ents, &schema) { Ok(it) => it.map(|u| u.to_string()).collect(), Err(e) => return json!({"query_error": e.to_string()}) }
+    } else {
+        let q = match PrincipalQueryRequest::new(ty.clone(), action.clone(), fixed.clone(), context.clone(), &schema) { Ok(q) => q, Err(e) => return json!({"input_error": e.to_string()}) };
+        match ps.query_principal(&q, &ents, &schema) { Ok(it) => it.map(|u| u.to_string()).collect(), Err(e) => return json!({"query_error": e.to_string()}) }
+    };
+    got.sort();
+    let mut want: Vec<String> = vec![];
+    for e in ents.iter() {
+        if e.uid().type_name() != &ty { continue; }
+        let (p, r) = if resource_query { (fixed.clone(), e.uid()) } else { (e.uid(), fixed.clone()) };
+        if let Ok(q) = Request::new(p, action.clone(), r, context.clone(), Some(&schema)) {
+            if Authorizer::new().is_authorized(&q, &ps, &ents).decision() == cedar_policy::Decision::Allow { want.push(e.uid().to_string()); }
+        }
+    }
+    want.sort();
+    json!({"query": got, "brute_force": want})
+}
+
 fn handle(req: &J) -> J {
     match req["op"].as_str().unwrap_or("") {
         "eval" => eval(req),
@@ -1287,6 +1321,7 @@ fn handle(req: &J) -> J {
         "ffi_history" => ffi_history(req),
         "ffi_validate" => ffi_validate(req),
         "proto_roundtrip" => proto_roundtrip(req),
+        "permission_query" => permission_query(req),
         "ffi_convert" => ffi_convert(req),
         other => json!({"unknown_op": other}),
     }
